@@ -40,9 +40,12 @@ def is_perpoint(path, v, shape):
     return nm in PERPOINT and v.ndim >= nd and tuple(v.shape[v.ndim - nd:]) == tuple(shape)
 
 
-def split(params, shape):
+def split(params, shape, method=None):
     flat = flatten(params)
     pp = {k: (v.T if leaf_name(k) == 'coef' else v) for k, v in flat.items() if is_perpoint(k, v, shape)}
+    if method == 'custom_bc':
+        # the wrapped method runs on the truncated, sorted (x_fit, y_fit): its parameters follow x_fit, not the data
+        pp = {k: v for k, v in pp.items() if not k.startswith('method_params.')}
     other = {k: v for k, v in flat.items() if k not in pp}
     return pp, other
 
